@@ -1702,9 +1702,14 @@ void selectKeyExchangeMode(ssl_t *ssl)
         }
     }
 
-    /* Default to standard non-PSK key exchange. */
+    /* Default to standard non-PSK key exchange. Everything that hangs on a
+       PSK goes with it: the mark that makes us skip certificate
+       authentication, and early data (its keys come from the PSK - without
+       one the read keys activated for WAIT_EOED would be all zero). */
     ssl->sec.tls13ChosenPsk = NULL;
     ssl->sec.tls13ChosenPskMode = psk_keyex_mode_none;
+    ssl->sec.tls13UsingPsk = PS_FALSE;
+    ssl->tls13ServerEarlyDataEnabled = PS_FALSE;
 
 out:
     psTracePrintPskKeyExchangeMode(INDENT_NEGOTIATED_PARAM,
